@@ -8,3 +8,5 @@ for p in "$@"; do
   echo "== $p rc=$rc $(( $(date +%s)-s ))s"; echo "$out" | grep "^VIOLATION" | head -5
 done
 cd /repo && git checkout -- . && git status --short | head -3
+# the regenerated Lean files were rewritten from the changed source: regenerate them from the restored tree
+(cd /verif/astfacts && GOFLAGS=-mod=mod GOPROXY=off GOSUMDB=off GOTOOLCHAIN=local go run . /repo /verif/lean/Generated/Facts.lean)
